@@ -196,6 +196,41 @@ void h_persist_two_instances(void) { ND(U32, base); ND(U64, big); ND(U32, addr);
 '''
 
 
+def start0_jobs(ctx):
+    """A module without function imports whose START function is function 0 (the start section's payload is the single byte 0x00) and with the smallest
+    possible sections everywhere: nothing may be mistaken for 'empty'."""
+    m = W.Module()
+    g = m.global_(I32, True, W.const_expr(I32, 0))
+    f0 = m.func([], [], W.ins("i32.const", 41) + W.ins("global.set", g))
+    m.func([], [I32], W.ins("global.get", g), export="get")
+    m.start = f0
+    modname = "c06start0"
+    wasm_bytes = m.encode()
+    d, r = ctx.translate(wasm_bytes, modname, ())
+    if d is None:
+        from ..core import rejected_job
+        return [rejected_job("G.start0.translate", modname, r, wasm_bytes.hex())]
+    text = r'''
+#include "vh.h"
+#include "w2c2_base.h"
+#include "trapstub.h"
+#include "MODNAME.c"
+static MODNAMEInstance inst;
+void h_start0(void) { MODNAMEInstance fresh_; 
+#ifndef VERIF_NATIVE
+    inst = fresh_;
+#endif
+    MODNAMEInstantiate(&inst, 0);
+    OBL(MODNAME_get(&inst) == 41u, "instantiate: the start function runs also when it is function 0 of a module without imports (start section payload = one zero byte)");
+    CANARY("start0"); }
+'''.replace("MODNAME", modname)
+    hp = os.path.join(d, "gh_%s.c" % modname)
+    open(hp, "w").write(text)
+    return [Job("G.start0", hp, entry="h_start0", includes=[d, os.path.join(ctx.repo, "w2c2")], flags=["--unwind", "10", "--unwinding-assertions"],
+                funcs=["generated:%sInstantiate (start function 0)" % modname], replay=lambda c, j, p, v: native_replay_generic(c, j, p, v),
+                info=dict(layer="G", generated_c=os.path.join(d, modname + ".c"), module_hex=wasm_bytes.hex()))]
+
+
 def variant_jobs(ctx, tag, impmem, start, shared, opts=(), prefix="G", only=None):
     jobs = []
     modname = "c06%s%s" % (tag, "" if prefix == "G" else "".join(ch for ch in prefix.lower() if ch.isalnum()))
@@ -241,6 +276,7 @@ def make_jobs(ctx):
     jobs = []
     for tag, impmem, start, shared in [("defmem", False, True, False), ("impmem", True, True, False), ("nostart", False, False, False), ("shared", False, True, True)]:
         jobs += variant_jobs(ctx, tag, impmem, start, shared)
+    jobs += start0_jobs(ctx)
     # data segments kept outside the C file (-d gnu-ld): offsets into the blob must skip passive segments as well
     jobs += variant_jobs(ctx, "defmem", False, True, False, opts=["-d", "gnu-ld"], prefix="Ggnuld", only=(None if ctx.tier == "thorough" else ["h_memory"]))
     if ctx.tier == "thorough":
